@@ -45,7 +45,7 @@ def nontrivial(run, m):
 
 def make_base(job, case, m, seed):
     run = explore.make_run(case, [], model=m)
-    ctl = dict(req=0.06, max_req=3, early_render=0.4)
+    ctl = dict(req=0.06, max_req=3, early_render=0.6)
     inj = workloads.Injector(h64(job.get("gseed", 0), seed, "inj"), ctl)
     pol = explore.Policy(pseed=h64(job.get("gseed", 0), seed, "p"), lazy_pct=[0, 50][seed % 2], render=True)
     explore.run_free(run, pol, hook=inj)
@@ -123,7 +123,7 @@ def crash_twin(job):
 
 
 def jobs(tier, seed):
-    P = dict(p_intjoin=0.3, p_items=0.25, p_retry=0.2)
+    P = dict(p_intjoin=0.3, p_items=0.25, p_retry=0.2, p_latevar=0.4)
     return batches("crash_twin", scale(tier, 120, 2500), scale(tier, 6, 40), gen="mix", p_loop=0.3, P=P, gseed=seed,
                    all_singles_upto=scale(tier, 12, 30), singles=scale(tier, 6, 16), subsets=scale(tier, 2, 6), name="crash-twin")
 
